@@ -281,9 +281,16 @@ def make_target(rs_sa, routing=None):
     return t
 
 
-def call(intf, rs_sa, routing, lun, netfn, cmd, payload):
-    """send_and_receive_raw; returns bytes or the exception"""
-    t = make_target(rs_sa, routing)
+def call(intf, rs_sa, routing, lun, netfn, cmd, payload, targets=None):
+    """send_and_receive_raw; returns bytes or the exception.  With [targets] (a dict owned by the
+    caller) requests to the same address / routing go through the SAME Target object."""
+    if targets is None:
+        t = make_target(rs_sa, routing)
+    else:
+        key = (rs_sa, repr(routing))
+        if key not in targets:
+            targets[key] = make_target(rs_sa, routing)
+        t = targets[key]
     try:
         return bytes(intf.send_and_receive_raw(t, lun, netfn, bytes([cmd]) + bytes(payload)))
     except Exception as e:  # noqa
